@@ -33,11 +33,16 @@ type Item struct {
 	Via        string `json:"via"`           // da | p2p | init | dah (a whole DA height: Blobs, read by processNextDAHeaderAndData from the DA double)
 	Kind       string `json:"kind"`          // hdr | data | junk | empty | undecodable | trunc
 	H          uint64 `json:"h"`             // base height: the genuine block this item is, or is derived from (L+1 = one past the chain)
-	Mut        string `json:"mut,omitempty"` // app | time | future | chain | datahash | last | height+ | height-
-	Sign       int    `json:"sign"`          // 0 keep the original signature, k>0 re-sign with key k, -1 junk bytes, -2 empty
-	SignerKey  int    `json:"signer_key"`    // -1 keep, 0 absent, k = public key of key k
-	SignerAddr int    `json:"signer_addr"`   // -1 keep, 0 empty, k = address of key k, -2 other bytes
-	PropAddr   int    `json:"prop_addr"`     // ProposerAddress of the header: -1 keep, 0 empty, k, -2 other bytes
+	// Mut: app | time | future | chain | datahash | last | height+ | height- ; a header field OUTSIDE Model/Types.header
+	// (covered by the signature, read by nobody in the block manager): valhash | valhash1 | lastcommit | consensus | results | version
+	Mut       string `json:"mut,omitempty"`
+	Sign      int    `json:"sign"`       // 0 keep the original signature, k>0 re-sign with key k, -1 junk bytes, -2 empty
+	SignerKey int    `json:"signer_key"` // -1 keep, 0 absent, k = public key of key k
+	// addresses: -1 keep, 0 empty, k = address of key k, -2 other bytes; non-canonical LENGTHS: -3 a proper prefix of the
+	// proposer's address (1, 2, 20 or 31 bytes, by Salt), -4 a proper prefix of the address of the signer's key,
+	// -5 the proposer's address followed by one more byte
+	SignerAddr int `json:"signer_addr"`
+	PropAddr   int `json:"prop_addr"` // ProposerAddress of the header
 	NoMeta     bool   `json:"no_meta,omitempty"`
 	NewTxs     bool   `json:"new_txs,omitempty"` // data: transactions invented by the third party (derived from Salt)
 	Linked     bool   `json:"linked,omitempty"`  // p2p data: LastDataHash = hash of the current data-store head
@@ -49,7 +54,10 @@ type Item struct {
 	// via=cmt: two byte-level lists (variant Resplit and variant Resplit2 of one base, 0 = the base) and their DACommitments.
 	Resplit  int    `json:"resplit,omitempty"`
 	Resplit2 int    `json:"resplit2,omitempty"`
-	Blobs    []Item `json:"blobs,omitempty"` // via=dah: the blobs of the DA height in id order (each a via=da item)
+	// via=dah: the blobs of the DA height in id order (each a via=da item).  via=range: the headers (oldest first) the P2P
+	// header store gains between two passes of HeaderStoreRetrieveLoop, appended to the real go-header store as its
+	// syncer does after a range request (store.Append), then ONE tick of the store loop
+	Blobs    []Item `json:"blobs,omitempty"`
 	Rep      int    `json:"rep,omitempty"`   // inside Blobs: the blob is published Rep times in a row (0 = once)
 }
 
@@ -70,6 +78,14 @@ func (it Item) nBlobs() int {
 }
 
 func (it Item) String() string {
+	if it.Via == "range" {
+		var p []string
+		for _, b := range it.Blobs {
+			b.Via = "p2p"
+			p = append(p, b.String())
+		}
+		return fmt.Sprintf("range(%d headers){%s}", len(it.Blobs), strings.Join(p, " "))
+	}
 	if it.Via == "dah" {
 		var p []string
 		for _, b := range it.Blobs {
@@ -101,6 +117,9 @@ type world struct {
 	app0     []byte
 	now      time.Time
 
+	restGenuine map[string]bool   // the header fields outside the model as the proposer's headers carry them (block 1 is built by getInitialState, the others by execCreateBlock: two values)
+	rawIdx      map[string]uint64 // addresses that are no key's address, by their bytes
+
 	hdrName map[string]string
 	defs    []string
 	txIdx   map[string]uint64
@@ -115,7 +134,7 @@ type world struct {
 var emptyDataHash = block.VerifDataHashForEmptyTxs()
 
 func newWorld(t testing.TB, ctx context.Context, r *rand.Rand, txCounts []int) *world {
-	w := &world{t: t, ctx: ctx, hdrName: map[string]string{}, txIdx: map[string]uint64{}, rootIdx: map[string]uint64{},
+	w := &world{t: t, ctx: ctx, hdrName: map[string]string{}, txIdx: map[string]uint64{}, rootIdx: map[string]uint64{}, rawIdx: map[string]uint64{},
 		commit: map[string]string{}, sigs: map[string]string{}, dsigs: map[string]string{}}
 	w.keys = []crypto.PrivKey{nil, detKey(r), detKey(r), detKey(r)}
 	w.gen = genesis.NewGenesis(chainID, 1, time.Now().Add(-time.Hour), types.KeyAddress(w.keys[1].GetPublic()))
@@ -126,8 +145,10 @@ func newWorld(t testing.TB, ctx context.Context, r *rand.Rand, txCounts []int) *
 	w.app0 = w.chain[0].hdr.AppHash
 	stopNode(agg)
 	// register the genuine material: the aggregator's signatures are signatures of key 1 — checked, not assumed
+	w.restGenuine = map[string]bool{}
 	for _, g := range w.chain {
 		w.regCommit(g.data.Txs)
+		w.restGenuine[restOf(&g.hdr.Header)] = true
 	}
 	for _, g := range w.chain {
 		name := w.regHeader(&g.hdr.Header)
@@ -170,7 +191,28 @@ func (w *world) addr(a []byte) string {
 	if k := w.keyOfAddr(a); k > 0 {
 		return fmt.Sprintf("(Addr %d)", k)
 	}
-	return "(AddrRaw 1)"
+	// any other bytes (a truncated or extended key address included): equal bytes, equal index
+	v, ok := w.rawIdx[string(a)]
+	if !ok {
+		v = uint64(1 + len(w.rawIdx))
+		w.rawIdx[string(a)] = v
+	}
+	return fmt.Sprintf("(AddrRaw %d)", v)
+}
+
+// restOf: the header fields Model/Types.header does not have (all of them inside the signed bytes and the hash).
+func restOf(h *types.Header) string {
+	return fmt.Sprintf("%d|%d|%x|%x|%x|%x", h.Version.Block, h.Version.App, []byte(h.LastCommitHash), []byte(h.ConsensusHash), []byte(h.LastResultsHash), []byte(h.ValidatorHash))
+}
+
+// appOf: the name of the model's h_app.  The index names the pair (AppHash, fields outside the model): for a header
+// that carries the proposer's values there (every header the proposer builds) it is the AppHash alone; an altered copy
+// differs from its original in h_app, as its bytes and its hash do.
+func (w *world) appOf(h *types.Header) uint64 {
+	if r := restOf(h); !w.restGenuine[r] {
+		return w.root(append(append(append([]byte{}, h.AppHash...), []byte("|outside-the-model|")...), []byte(r)...))
+	}
+	return w.root(h.AppHash)
 }
 func (w *world) keyOfPub(p crypto.PubKey) int {
 	for k := 1; k < len(w.keys); k++ {
@@ -255,7 +297,7 @@ func (w *world) regHeader(h *types.Header) string {
 	name := fmt.Sprintf("H%d", len(w.hdrName))
 	w.hdrName[key] = name
 	w.defs = append(w.defs, fmt.Sprintf("Definition %s : header := Header %d %d %d %s %s %d %s.", name,
-		h.Height(), int64(h.BaseHeader.Time), chainN(h.ChainID()), last, w.commitment(h.DataHash), w.root(h.AppHash), w.addr(h.ProposerAddress)))
+		h.Height(), int64(h.BaseHeader.Time), chainN(h.ChainID()), last, w.commitment(h.DataHash), w.appOf(h), w.addr(h.ProposerAddress)))
 	return name
 }
 func (w *world) sigTerm(s []byte) string {
@@ -308,7 +350,8 @@ type built struct {
 	class string      // blob class for the model: hdr | data | junk | empty | undecodable
 }
 
-func (w *world) addrBytes(sel int, keep []byte) []byte {
+func (w *world) addrBytes(sel int, keep []byte, it Item) []byte {
+	cut := []int{1, 2, 20, 31}[int(it.Salt%4+4)%4]
 	switch {
 	case sel == -1:
 		return keep
@@ -316,6 +359,16 @@ func (w *world) addrBytes(sel int, keep []byte) []byte {
 		return nil
 	case sel == -2:
 		return bytes.Repeat([]byte{0xab}, 32)
+	case sel == -3:
+		return append([]byte{}, w.gen.ProposerAddress[:cut]...)
+	case sel == -4:
+		k := it.SignerKey
+		if k < 1 {
+			k = 1
+		}
+		return append([]byte{}, types.KeyAddress(w.keys[k].GetPublic())[:cut]...)
+	case sel == -5:
+		return append(append([]byte{}, w.gen.ProposerAddress...), byte(it.Salt))
 	}
 	return types.KeyAddress(w.keys[sel].GetPublic())
 }
@@ -415,8 +468,23 @@ func (w *world) build(it Item, dataHead *types.Data) *built {
 				if sh.Header.BaseHeader.Height > 1 {
 					sh.Header.BaseHeader.Height--
 				}
+			case "valhash":
+				sh.Header.ValidatorHash = bytes.Repeat([]byte{byte(1 + it.Salt%200)}, 32)
+			case "valhash1":
+				sh.Header.ValidatorHash = []byte{byte(1 + it.Salt%200)}
+			case "lastcommit":
+				sh.Header.LastCommitHash = bytes.Repeat([]byte{byte(1 + it.Salt%200)}, 32)
+			case "consensus":
+				sh.Header.ConsensusHash = bytes.Repeat([]byte{byte(1 + it.Salt%200)}, 32)
+			case "results":
+				sh.Header.LastResultsHash = bytes.Repeat([]byte{byte(1 + it.Salt%200)}, 32)
+			case "version":
+				sh.Header.Version.App += 1 + uint64(it.Salt%3)
 			}
-			sh.Header.ProposerAddress = w.addrBytes(it.PropAddr, sh.Header.ProposerAddress)
+			if isOutsideMut(it.Mut) && w.restGenuine[restOf(&sh.Header)] {
+				w.t.Fatalf("%s: the altered copy carries values the proposer's headers carry", it)
+			}
+			sh.Header.ProposerAddress = w.addrBytes(it.PropAddr, sh.Header.ProposerAddress, it)
 			switch {
 			case it.SignerKey == 0:
 				sh.Signer = types.Signer{}
@@ -424,7 +492,7 @@ func (w *world) build(it Item, dataHead *types.Data) *built {
 				sh.Signer = types.Signer{PubKey: w.keys[it.SignerKey].GetPublic(), Address: sh.Signer.Address}
 			}
 			if sh.Signer.PubKey != nil {
-				sh.Signer.Address = w.addrBytes(it.SignerAddr, sh.Signer.Address)
+				sh.Signer.Address = w.addrBytes(it.SignerAddr, sh.Signer.Address, it)
 			}
 			name := w.regHeader(&sh.Header)
 			switch {
@@ -517,7 +585,7 @@ func (w *world) build(it Item, dataHead *types.Data) *built {
 				sd.Signer = types.Signer{PubKey: w.keys[it.SignerKey].GetPublic(), Address: sd.Signer.Address}
 			}
 			if sd.Signer.PubKey != nil {
-				sd.Signer.Address = w.addrBytes(it.SignerAddr, sd.Signer.Address)
+				sd.Signer.Address = w.addrBytes(it.SignerAddr, sd.Signer.Address, it)
 			}
 			switch {
 			case it.Sign > 0:
